@@ -577,6 +577,7 @@ func c02TopFrames(block []string) string {
 }
 
 func runC02(cases string, res *Result) {
+	c02RegisterDuringLookup(res)
 	if !c02RaceEnabled {
 		res.add(Finding{Kind: "disagreement", Where: "runner", Case: map[string]string{"k": "build"},
 			Detail: "the runner was not built with -race (props/C02.json must say \"race\": true): the runtime part of C02 is not observed"})
@@ -769,4 +770,72 @@ func runC02(cases string, res *Result) {
 	res.Hist["race reports"] = totalRaces
 	res.Hist["abnormal child exits"] = abnormal
 	res.Notes = append(res.Notes, fmt.Sprintf("race detector: %v; every repetition starts all goroutines on one channel close against a cold engine; GOMAXPROCS=16; %d child processes", c02RaceEnabled, batchNo))
+}
+
+// c02BlockingLoader answers not-found for every name; for the watched name it first waits until the test lets it go
+type c02BlockingLoader struct {
+	watch   string
+	entered chan struct{}
+	release chan struct{}
+	once    sync.Once
+}
+
+func (l *c02BlockingLoader) Load(name string) (string, error) {
+	if name == l.watch {
+		l.once.Do(func() { close(l.entered) })
+		select {
+		case <-l.release:
+		case <-time.After(5 * time.Second):
+		}
+	}
+	return "", fmt.Errorf("%w: %s", twig.ErrTemplateNotFound, name)
+}
+func (l *c02BlockingLoader) Exists(name string) bool { return false }
+
+// c02RegisterDuringLookup: a render looks an optional include up (the loader is slow to say it has no such template)
+// while RegisterString registers that very name. Once both calls have returned the name is registered, under either
+// serial order, and every later render shows it.
+func c02RegisterDuringLookup(res *Result) {
+	for _, page := range []string{"[{% include 'banner.twig' ignore missing %}]", "[{% for i in [1] %}{% include 'ban' ~ 'ner.twig' ignore missing %}{% endfor %}]"} {
+		for round := 0; round < 3; round++ {
+			ld := &c02BlockingLoader{watch: "banner.twig", entered: make(chan struct{}), release: make(chan struct{})}
+			eng := twig.New()
+			eng.RegisterLoader(ld)
+			if eng.RegisterString("page", page) != nil {
+				return
+			}
+			c := Case{"k": "register-during-lookup", "page": page}
+			res.Hist["stream:register-during-lookup"]++
+			res.Evaluations++
+			var wg sync.WaitGroup
+			wg.Add(1)
+			go func() {
+				defer wg.Done()
+				eng.Render("page", map[string]interface{}{})
+			}()
+			select {
+			case <-ld.entered:
+			case <-time.After(5 * time.Second):
+			}
+			wg.Add(1)
+			go func() {
+				defer wg.Done()
+				eng.RegisterString("banner.twig", "BANNER")
+			}()
+			time.Sleep(30 * time.Millisecond)
+			close(ld.release)
+			wg.Wait()
+			for i := 0; i < 2; i++ {
+				got, err := eng.Render("page", map[string]interface{}{})
+				if err != nil {
+					got = "error: " + err.Error()
+				}
+				if got != "[BANNER]" {
+					res.add(Finding{Kind: "oracle", Where: "register-during-lookup", Case: c, Expected: "[BANNER]", Observed: got,
+						Detail: "Render(page) was looking the optional include up while RegisterString(banner.twig) ran; both returned; a later render must show the registered template (as after either serial order)"})
+					return
+				}
+			}
+		}
+	}
 }
